@@ -12,7 +12,7 @@
 // Quiescence between steps is established by marker messages that travel FIFO behind the real
 // traffic through the real pipeline (never by sleeping):
 //   L  an empty lease-forwarded TxRequest  (executor -> versionAssigner -> persist -> splitter)
-//   M  a gossip batch {~m accepted, ~r rejected} (filterPersist -> splitter -> store/observers,
+//   M  a gossip batch {~m accepted (fresh version), ~r rejected (strictly older than the seeded one)} (filterPersist -> splitter -> store/observers,
 //      filterPersist -> feedbackSender)
 //   F  T+2 feedback messages for ~m (feedbackReceiver -> recoveryTransform -> storeSink)
 // Marker keys start with '~', carry negative versions (never reach a high-water mark) and are
@@ -403,7 +403,7 @@ func (c *Cluster) open(n *Node) {
 		if !errors.Is(err, query.ErrNotFound) {
 			panic(err)
 		}
-		c.send(n, kv.TxRequest{Context: c.ctx, Sender: markerSender, Operations: []kv.Operation{markerOp(keyR, 0, markerVerBase)}})
+		c.send(n, kv.TxRequest{Context: c.ctx, Sender: markerSender, Operations: []kv.Operation{markerOp(keyR, 0, markerVerBase+1)}})
 		waitFor("seed ~r", func() bool {
 			_, err := kv.VerifReadDigest(c.ctx, n.engine, []byte(keyR))
 			return err == nil
